@@ -173,7 +173,7 @@ def correspond(ctx, pid, harness, modelpid, cases, monitor_fn, describe_fn, labe
     ctx.cov["correspondence"][label] = dict(cases=len(cases), disagreements=len(dis))
     found = False
     reported = 0
-    for i in sorted(dis, key=lambda i: len(cases[i]))[:300]:
+    for i in sorted(dis, key=lambda i: len(cases[i]))[:5000]:
         why = monitor_fn(cases[i], out_i[i])
         if why:
             found = True
